@@ -2,6 +2,7 @@ import GoframeModel.Ops.Clean
 import GoframeModel.Spec.SortDedup
 import GoframeModel.Lemmas.RefineD
 import GoframeModel.Lemmas.Dedup
+import GoframeModel.Lemmas.DedupRows
 /-
   C07 — DropDuplicates removes exactly the redundant rows and nothing else.
   The code compares rows through a string key (`getRowKey`); the specification compares cells. The
@@ -62,5 +63,26 @@ theorem pinned_key_collides :
     let key (a b : Str) : Str := [97, 58] ++ a ++ [124] ++ [98, 58] ++ b ++ [124]
     key ([120, 124, 98, 58, 121]) ([122]) = key ([120]) ([121, 124, 98, 58, 122]) := by
   decide
+
+/-- C01's row-alignment clause for DropDuplicates: whatever rows survive, each of them — all its cells together —
+is a row of the receiver, and the columns are the receiver's -/
+theorem dedup_rows_whole (ω : Oracle) (h : FmtInj ω) {f : Frame} {n : Nat} (hs : f.Sorted) (hr : f.RectN n)
+    (o : DedupOpts) (src out : Frame) (hd : f.dropDuplicates ω o = .ok (src, out)) :
+    out.keys = f.keys ∧ ∀ r ∈ out.rows, r ∈ f.rows := by
+  have hsp := dedup_spec ω h hs hr o
+  cases he : Spec.dedupSpec f o.subset o.keep with
+  | none =>
+    rw [he] at hsp
+    rw [hd] at hsp
+    simp [Outcome.isErr] at hsp
+  | some e =>
+    rw [he] at hsp
+    have hout : out = e := by
+      rw [hd] at hsp
+      injection hsp with hsp
+      cases hi : o.inplace <;> rw [hi] at hsp <;> simp at hsp <;> exact hsp.2
+    subst hout
+    obtain ⟨cs, kp, rfl⟩ := DedupRows.dedupSpec_some he
+    exact DedupRows.ofRows_rows_whole hs _ (DedupRows.dedupRows_subset _ _ _)
 
 end Goframe.C07
